@@ -3,6 +3,7 @@ package main
 import (
 	"fmt"
 	"go/token"
+	"sort"
 	"strings"
 
 	"golang.org/x/tools/go/ssa"
@@ -29,6 +30,8 @@ func runC11(c *Ctx) {
 	c.Rule("C11.O2", "OnShutdown notifies connections then waits; the wait is bounded and re-reads the active-stream gauge", 5)
 	c.Rule("C11.O3", "StageManager.Stop: graceful-stop stage before Close before after-stop", 4)
 	c.Rule("C11.O4", "connection hand-over only after stop signal and deadline; read side transferred before write side", 4)
+	c.Rule("C11.O5", "the read buffer handed over is the connection's own and is never dropped (or the hand-over tolerates nil)", 2)
+	defer c11HandOverBuffer(c)
 	c.NotDecided = append(c.NotDecided, "that no request on a new, handed-over or in-flight connection fails around SIGTERM/SIGHUP (cross-process, kernel and timing dependent)", "fd passing over the unix socket, inheritance of listeners by the new process", "HTTP/2 GOAWAY and keep-alive draining")
 
 	named := func(n string) func(cc *ssa.CallCommon) bool {
@@ -249,4 +252,112 @@ func runC11(c *Ctx) {
 		c.Check("C11.O4", funcKey(fn)+":read-then-write", fn.Pos(), ok && idOK, "transferRead(c) hands over the connection (and its read buffer); the id it returns is used by transferWrite", "the hand-over no longer transfers the read side first and routes pending writes with the id it returned")
 	}
 	_ = fmt.Sprintf
+}
+
+// c11HandOverBuffer (O5): what is handed to the new process is what was read.
+// transferRead sends c.readBuffer (bytes received but not yet dispatched) together with the socket; transferReadSendData
+// dereferences it (buf.Len()). The buffer is allocated lazily by doRead and, on today's tree, never dropped afterwards.
+// Clause: either no code path resets connection.readBuffer to nil, or the hand-over tolerates a nil buffer (nil test
+// dominating the first use). Otherwise an idle connection whose buffer was released panics in the hand-over after its
+// descriptor was already sent: it is served by neither process.
+func c11HandOverBuffer(c *Ctx) {
+	pkg := "pkg/network"
+	var nilStores []string
+	var pos token.Pos
+	n := 0
+	for _, fn := range c.PkgFuncs(pkg) {
+		for _, st := range storesToField(fn, ".connection", "readBuffer", false) {
+			n++
+			if isNilConst(st.Val) {
+				nilStores = append(nilStores, fn.Name())
+				pos = st.Pos()
+			}
+		}
+	}
+	if n < 3 {
+		c.Unresolved("C11.O5", fmt.Sprintf("stores to connection.readBuffer (found %d)", n))
+		return
+	}
+	tolerant := false
+	if fn := c.F(pkg, "transferReadSendData"); fn != nil && len(fn.Params) == 3 {
+		buf := fn.Params[2]
+		uses := 0
+		guarded := 0
+		nonNilAt := func(b *ssa.BasicBlock) bool {
+			for _, g := range guardsAt(b) {
+				if bo, ok := g.Cond.(*ssa.BinOp); ok && bo.X == ssa.Value(buf) && isNilConst(bo.Y) {
+					if (bo.Op == token.NEQ && g.True) || (bo.Op == token.EQL && !g.True) {
+						return true
+					}
+				}
+			}
+			return false
+		}
+		nonNilOnEdge := func(pred, to *ssa.BasicBlock) bool {
+			if nonNilAt(pred) {
+				return true
+			}
+			if ifi, ok := pred.Instrs[len(pred.Instrs)-1].(*ssa.If); ok {
+				if bo, ok := ifi.Cond.(*ssa.BinOp); ok && bo.X == ssa.Value(buf) && isNilConst(bo.Y) {
+					return (bo.Op == token.EQL && pred.Succs[1] == to) || (bo.Op == token.NEQ && pred.Succs[0] == to)
+				}
+			}
+			return false
+		}
+		forEachInstr(fn, false, func(_ *ssa.Function, in ssa.Instruction) {
+			ci, ok := in.(ssa.CallInstruction)
+			if !ok || !ci.Common().IsInvoke() {
+				return
+			}
+			switch rv := ci.Common().Value.(type) {
+			case *ssa.Parameter:
+				if rv != buf {
+					return
+				}
+				uses++
+				if nonNilAt(in.Block()) {
+					guarded++
+				}
+			case *ssa.Phi:
+				has, okAll := false, true
+				for i, e := range rv.Edges {
+					if e == ssa.Value(buf) {
+						has = true
+						if !nonNilOnEdge(rv.Block().Preds[i], rv.Block()) {
+							okAll = false
+						}
+					} else if isNilConst(e) {
+						okAll = false
+					}
+				}
+				if has {
+					uses++
+					if okAll {
+						guarded++
+					}
+				}
+			}
+		})
+		tolerant = uses > 0 && uses == guarded
+	} else {
+		c.Unresolved("C11.O5", "network.transferReadSendData")
+		return
+	}
+	sort.Strings(nilStores)
+	c.Check("C11.O5", "pkg/network.connection.readBuffer:never-dropped-or-nil-tolerated", pos, len(nilStores) == 0 || tolerant,
+		fmt.Sprintf("%d stores to readBuffer, none of nil (hand-over nil-tolerant: %v)", n, tolerant),
+		"connection.readBuffer is reset to nil in "+strings.Join(nilStores, ",")+" while the hand-over (transferReadSendData) dereferences it unconditionally: a connection whose buffer was released panics during transfer after its descriptor was sent and is served by neither process")
+	// the hand-over passes the connection's own read buffer
+	if fn := c.F(pkg, "transferRead"); fn == nil {
+		c.Unresolved("C11.O5", "network.transferRead")
+	} else {
+		ok := false
+		for _, cs := range callsIn(fn, false, func(cc *ssa.CallCommon) bool { return methodName(cc) == "transferReadSendData" }) {
+			args := cs.Instr.Common().Args
+			if _, f, _, okf := loadedField(args[len(args)-1]); okf && f == "readBuffer" {
+				ok = true
+			}
+		}
+		c.Check("C11.O5", funcKey(fn)+":sends-read-buffer", fn.Pos(), ok, "the unread bytes of the connection travel with the descriptor", "the hand-over does not send the connection's read buffer: bytes received but not yet dispatched are lost")
+	}
 }
